@@ -228,12 +228,18 @@ UNITS['U16k'] = dict(
     not_covered=['decode of arbitrary / malformed byte streams', 'single.rs (f32 variant)', 'verbose_encode'])
 
 UNITS['U17k'] = dict(
-    kind='kani', crate='kani/U17', needs_lock=True, timeout_s=900, mem_gb=10, jobs=5,
-    title='BOUNDED (five fixed row shapes, all values symbolic): real crate locustdb-serialization, event_buffer::ColumnBuffer::push - every representation transition keeps each value at its row',
-    harnesses=[dict(name='proofs::%s' % n, bounded='fixed shape %s, unwind 6' % n, unwind=6, clause='den(representation, row) == value pushed at that row (ints promoted in place when a float arrives), NULL elsewhere', fn='event_buffer::ColumnBuffer::push') for n in ['dense_ints_then_gap', 'dense_floats_then_gap', 'dense_ints_then_float', 'sparse_ints_then_float', 'late_start_float_then_int']]
+    kind='kani', crate='kani/U17', needs_lock=True, timeout_s=900, mem_gb=10, jobs=6,
+    title='BOUNDED: real crate locustdb-serialization, event_buffer::ColumnBuffer::push - two fixed row shapes through the whole fn, and the four representation-transition arms (slices) over vectors of length 3: every value stays at its row',
+    harnesses=[dict(name='proofs::%s' % n, bounded='fixed shape %s, unwind 6' % n, unwind=6, clause='den(representation, row) == value pushed at that row (ints promoted in place when a float arrives), NULL elsewhere', fn='event_buffer::ColumnBuffer::push') for n in ['dense_floats_then_gap', 'late_start_float_then_int']]
+    + [dict(name='proofs::%s_keeps_rows' % n, bounded='vector length 3 (floats any f64, row indices any u64, promoted ints any value in -128..=127), unwind 6', unwind=6, clause=c, fn='event_buffer::ColumnBuffer::push[slice %s]' % n) for (n, c) in [
+        ('arm_dense_to_sparse', 'dense row i becomes sparse entry (i, value); the new value is appended at existing_len'),
+        ('arm_i64_to_sparse', 'dense integer row i becomes sparse entry (i, value); the new value is appended at existing_len'),
+        ('arm_i64_to_dense', 'promotion keeps length and order: out[i] == data[i] as f64'),
+        ('arm_sparse_i64_to_sparse', 'promotion keeps every row index: out[i] == (data[i].0, data[i].1 as f64)')]]
     + [dict(name='proofs::vx_canary', expect_fail=True)],
-    assumptions=['whole crate compiled unmodified (capnp dependency included but not exercised)'],
-    not_covered=['string / mixed values', 'row shapes other than the five listed', 'EventBuffer::serialize / deserialize (capnp)', 'TableBuffer::push_row_and_timestamp (HashMap, system time)'])
+    assumptions=['whole crate compiled unmodified for the two whole-fn harnesses (capnp dependency included but not exercised)',
+                 'arm slices: the match binding `data` (from `&mut self.data`) is restated as a `&mut Vec<_>` parameter; the recursive self.push that follows a promotion is covered by the whole-fn harnesses only for the float-column shapes'],
+    not_covered=['string / mixed values', 'row shapes other than the listed ones', 'vectors longer than 3', 'EventBuffer::serialize / deserialize (capnp)', 'TableBuffer::push_row_and_timestamp (HashMap, system time)'])
 
 UNITS['U18k'] = dict(
     kind='kani', crate='kani/U18',
@@ -241,9 +247,10 @@ UNITS['U18k'] = dict(
     harnesses=[dict(name='proofs::cursor_primitives', clause='add_wal_segment returns old next and increments; unflushed = cursor..next; register keeps next > id', fn='MetaStore cursor fns'),
                dict(name='proofs::recover_classification', unwind=3, clause='replayed iff id >= cursor; deleted iff id < cursor and not read-only; replayed ids registered', fn='Storage::recover[slice]'),
                dict(name='proofs::replay_contiguity', clause='after replaying id the expected next id is id + 1', fn='InnerLocustDB::new[slice]'),
+               dict(name='proofs::persisted_cursor_roundtrip', clause='deserialize(serialize(m)).earliest_unflushed_wal_id == m.earliest_unflushed_wal_id', fn='MetaStore::serialize/deserialize[slices]'),
                dict(name='proofs::vx_canary', expect_fail=True)],
     assumptions=['reduced struct MetaStore { next_wal_id, earliest_unflushed_wal_id } (partitions dropped)', 'A-wal-ids: fewer than 2^64 - 1 WAL segments',
-                 'shims: Writer (records deletes), PathId, WalSegment { id }, log::info! (dropped)'],
+                 'shims: Writer (records deletes), PathId, WalSegment { id }, log::info! (dropped), DbMeta { next_wal_id } with set/get (A-capnp for this field)'],
     not_covered=['history composition: write-ahead-before-ack, order of persist / advance / delete in wal_flush, catalogue serialisation (capnp)'])
 
 UNITS['U04k'] = dict(
@@ -299,12 +306,13 @@ UNITS['U04d'] = dict(
     not_covered=['column::decode control structure (section stack), string / compression arms, `UnhexpackStrings => todo!()`'])
 
 UNITS['U22k'] = dict(
-    kind='kani', crate='kani/U22', timeout_s=1500, mem_gb=16, jobs=1,
-    title='BOUNDED (3 columns, 1-character names): inner_locustdb::subpartition + lookup-map construction (slice) + PartitionMetadata::subpartition_key',
-    harnesses=[dict(name='proofs::every_column_is_found_in_its_file', bounded='3 columns, names from {A,B,a,b,_,0}, sizes/limit u8, unwind 6', unwind=6, clause='every column lands in exactly one file; subpartition_key(name) is the key of that file; a name above all routes to None', fn='subpartition / subpartition_key'),
-               dict(name='proofs::vx_canary', expect_fail=True)],
-    assumptions=['R10: Column reduced to (name, size); Options reduced to max_partition_size_bytes', 'A-sha: sha2 replaced by a stand-in crate (key formatting of unsafe names only)'],
-    not_covered=['sanitize_table_name', 'partition_filename formatting', 'lazy load / empty-handle protocol (concurrent)'])
+    kind='kani', crate='kani/U22', timeout_s=1500, mem_gb=16, jobs=2,
+    title='BOUNDED (3 columns, two fixed name sets, every grouping into files): inner_locustdb::subpartition + lookup-map construction (slice) + PartitionMetadata::subpartition_key',
+    harnesses=[dict(name='proofs::%s' % n, bounded='3 one-byte columns named %s, size limit 1..=3 (all three groupings), unwind 6' % names, unwind=6, clause='every column lands in exactly one file; subpartition_key(name) is the key of that file; a name above all routes to None', fn='subpartition / subpartition_key')
+               for (n, names) in [('mixed_case_names_found', '{a, B, c}'), ('prefix_names_found', '{ab, a, abc}')]]
+    + [dict(name='proofs::vx_canary', expect_fail=True)],
+    assumptions=['R10: Column reduced to (name, size); Options reduced to max_partition_size_bytes', 'A-sha: sha2 replaced by a stand-in crate (key formatting of unsafe names only; not exercised by these name sets)'],
+    not_covered=['sanitize_table_name', 'partition_filename formatting', 'names that are not file-system safe (digest keys)', 'lazy load / empty-handle protocol (concurrent)'])
 
 UNITS['U23k'] = dict(
     kind='kani', crate='kani/U23', timeout_s=600,
@@ -312,6 +320,34 @@ UNITS['U23k'] = dict(
     harnesses=[dict(name='proofs::hex_predicates', bounded='strings <= 2 ASCII bytes, unwind 5', unwind=5, clause='true exactly for even-length strings over the lower- / upper-case hex alphabet', fn='is_lowercase_hex / is_uppercase_hex'),
                dict(name='proofs::vx_canary', expect_fail=True)],
     assumptions=[], not_covered=['hex packing itself (hex crate, A-hex)', 'non-ASCII strings'])
+
+UNITS['U25k'] = dict(
+    kind='kani', crate='kani/U25', timeout_s=900, mem_gb=6, jobs=8,
+    title='planner.rs propagate_nullability / combine_nulls / combine_nulls2: the NULLs of a binary operator result come from exactly its nullable operands, the values from the same operator on the operands\' data (every buffer index; the three nullability patterns with representative types, plus the complete is_nullable / non_nullable tables)',
+    harnesses=[dict(name='proofs::%s_nulls' % h, unwind=5, bounded='the three nullability patterns (both / left / right operand nullable) with representative types; every buffer index; unwind 5',
+                    clause='rewrite of %s with nullable result: null sources == nullable operands; value op on forget_nullability(operands) into a fresh buffer' % v, fn='propagate_nullability[%s] + combine_nulls' % v)
+               for (h, v) in [('add', 'Add'), ('subtract', 'Subtract'), ('multiply', 'Multiply'), ('divide', 'Divide'), ('modulo', 'Modulo'), ('and', 'And'), ('or', 'Or'),
+                              ('less_than', 'LessThan'), ('less_than_equals', 'LessThanEquals'), ('equals', 'Equals'), ('not_equals', 'NotEquals')]]
+    + [dict(name='proofs::checked_%s_nulls' % h, unwind=5, bounded='the three nullability patterns (both / left / right operand nullable) with representative types; every buffer index; unwind 5',
+            clause='rewrite of Checked%s: NullableChecked%s on the operands\' data with a presence bitmap from exactly the nullable operands' % (v, v), fn='propagate_nullability[Checked%s] + combine_nulls2' % v)
+       for (h, v) in [('add', 'Add'), ('subtract', 'Subtract'), ('multiply', 'Multiply'), ('divide', 'Divide'), ('modulo', 'Modulo')]]
+    + [dict(name='proofs::tag_tables', clause='is_nullable() is true exactly for the Nullable* types; non_nullable() maps each to its base type and is the identity elsewhere (every EncodingType)', fn='EncodingType::is_nullable / non_nullable'),
+       dict(name='proofs::vx_canary', expect_fail=True)],
+    assumptions=['precondition: a nullable result has at least one nullable operand (what the ASTBuilder type inference `null=lhs,rhs` produces; the proc-macro is not under contract)',
+                 'QueryPlan: #[derive(ASTBuilder, Debug)] and the #[output]/#[internal]/#[nohash] field attributes are stripped (R1); the enum variants and fields are the real ones',
+                 'BufferProvider.shared_buffers (HashMap cache) dropped (R10); phantom payload types (MergeOp, Premerge, ValRows, RawVal, Val, Aggregator) are inert stand-ins',
+                 'the semantics of CombineNullMaps / AssembleNullable / PropagateNullability / GetNullMap nodes is that of their operators (U01: combine_null_maps kernels)',
+                 'symbolic operand types made CBMC exceed 64 GB (a Vec returned from either branch of combine_nulls is reallocated by push); the planner fns read a type only through is_nullable() / non_nullable(), which tag_tables covers completely'],
+    not_covered=['Cast, Floor, MergeKeep, DictLookup arms', 'the ASTBuilder-generated type inference and the executor wiring in query_plan::prepare'])
+
+UNITS['U24k'] = dict(
+    kind='kani', crate='kani/U24', timeout_s=600, mem_gb=12, jobs=2,
+    title='BOUNDED (names <= 2 ASCII characters): storage.rs sanitize_table_name - cleaning steps after lower-casing (slice) and the verbatim-or-digest decision (expression slice)',
+    harnesses=[dict(name='proofs::verbatim_only_if_identical', bounded='cleaned / requested names <= 2 chars over {E,e,-,.,/,_,7,space}, unwind 6', unwind=6, clause='needs_digest(cleaned, requested) == (cleaned != requested) bytewise', fn='sanitize_table_name[slice: digest decision]'),
+               dict(name='proofs::cleaned_name_is_safe', bounded='names <= 2 chars over {E,e,-,.,/,_,7,space}, unwind 6', unwind=6, clause='cleaned name is over [A-Za-z0-9_.-] and does not start with . or -', fn='sanitize_table_name[slice: retain / trim]'),
+               dict(name='proofs::vx_canary', expect_fail=True)],
+    assumptions=['A-sha: distinct originals get distinct digests (the digest formatting itself is not extracted)', 'str::to_lowercase (std, Unicode tables) is not executed symbolically: CBMC did not finish on it in 900 s'],
+    not_covered=['names longer than 2 characters, non-ASCII names', 'the `-<name>-<digest>` formatting', 'truncation to 189 bytes'])
 
 PROPS = {
     'C14': dict(level='proof', units=['U14v', 'U14b'],
@@ -340,7 +376,7 @@ PROPS = {
                 level_note='the check catches a broken cursor primitive or classification, not a broken ordering of persist / advance / delete across threads; history composition is not covered',
                 technique='contract-based deductive verification (Kani complete harnesses) of extracted functions and statement slices',
                 assumptions=[], not_covered=['write-ahead-before-acknowledge (thread join)', 'wal_flush ordering', 'catalogue (de)serialisation']),
-    'C16': dict(level='proof', units=['U16k', 'U15k', 'U02'],
+    'C16': dict(level='proof', units=['U16k', 'U15k', 'U02', 'U17k'],
                 level_text='float codec: induction base/step discharged by complete Kani harnesses over the extracted loop bodies; integer layouts and client-side row API: bounded Kani harnesses (length <= 4) over all values',
                 level_note='A-bitbuffer, A-ind-scheme, A-capnp; bounded parts are reported under coverage.bounded and not counted as discharged obligations',
                 technique='contract-based deductive verification (Kani: complete induction step + bounded harnesses) of extracted slices and of the unmodified sub-crate',
@@ -360,7 +396,7 @@ PROPS = {
                 level_note='std sort_by/sort_unstable_by, the top-n driver and the planner choice between sort and top-n are not covered',
                 technique='contract-based deductive verification (Verus + Kani) of extracted functions',
                 assumptions=[], not_covered=['SortBy*::execute (std sort)', 'TopN::execute/finalize']),
-    'C03': dict(level='proof', units=['U01', 'U05k', 'U06k', 'U07k', 'U08v', 'U19'],
+    'C03': dict(level='proof', units=['U01', 'U05k', 'U06k', 'U07k', 'U08v', 'U19', 'U25k'],
                 level_text='complete Kani proofs of comparison kernels and constant translation; Verus proof of null bitmap primitives',
                 level_note='compile_expr glue, LIKE/regex, string dictionary comparisons not covered yet',
                 technique='contract-based deductive verification (Kani complete harnesses + Verus) of extracted / path-included real code',
